@@ -11,19 +11,19 @@ CLAIMED = {
  'C03': ('exploration', 'seeded search over checksummed chains of depth 1-3 with noise, always and removal histories on the direct and the out-of-band path; SeenModel must/may sets plus from-scratch freshness', 'stamp masks are not generated (a mask that hides bytes dependents read contradicts C01 by construction)'),
  'C04': ('fault_enumeration', 'the finite cross product 11 script behaviours (incl. a dangling-symlink $3) x 6 output sizes x 3 prior states (198 cells) is enumerated completely, every cell under several seeded schedules, half of them with the script killed at a walked yield, a third with a stale temp file left by a killed run; per-step watcher of every state of the target a reader can see', 'a script that writes $1 itself changes the target by its own doing; redo is only held to status 206 and to not touching it further'),
  'C05': ('exploration', 'seeded search over failing subsets, command-line orders, -k/-j and schedules across fail/repeat/repair histories', 'failure cone computed by the from-scratch evaluator; flags are declared dependencies'),
- 'C06': ('exploration', 'seeded search over 2-4 concurrent invocations on fresh and on previously built projects, late starters, kills of one process or of a command\'s process group (crash plans and timed aborts), invocations that end with an internal error while their jobs run; trace invariants over the totally ordered event log', "lock byte of a job inferred from the builder's own fcntl calls at the libc seam; the orphan of a SIGKILLed builder is a known finding"),
+ 'C06': ('exploration', 'seeded search over 2-4 concurrent invocations on fresh and on previously built projects, late starters, kills of one process or of a command\'s process group (crash plans and timed aborts), invocations that end with an internal error while their jobs run, invocations whose output reader goes away (cmd | head); trace invariants over the totally ordered event log', "lock byte of a job inferred from the builder's own fcntl calls at the libc seam; the orphan of a SIGKILLed builder is a known finding"),
  'C07': ('exploration', 'seeded search over -j, --shuffle, script durations and schedules; differential against the serial -j1 replay of the same history plus the from-scratch evaluator', 'structural DB comparison ignores run ids and stamps'),
- 'C08': ('exploration', 'seeded search with select-stall faults and wake-up plans (one chosen wake-up held back per follow-up run); token pipe fill and working scripts observed at every scheduling step; own and inherited (make-style) jobserver; success, script failure and internal-error exits', 'allows +1 per live redo-log follower as the property states'),
+ 'C08': ('exploration', 'seeded search with select-stall faults and wake-up plans (one chosen wake-up held back per follow-up run); token pipe fill and working scripts observed at every scheduling step; own and inherited (make-style) jobserver; success, script failure and internal-error exits; a nested `redo -j1` below a parallel build keeps its subtree serial', 'allows +1 per live redo-log follower as the property states'),
  'C09': ('exploration', 'seeded search over interleavings of child exits, token arrivals, timers and lock hand-overs, including jobs that run for minutes of simulated time, waiters that rebuild after a lock wait, and wake-up plans (the k-th ready select/poll wake-up of the recorded run held back until nothing else can run, for sampled k); exact deadlock detection (all parked, none enabled, no deadline)', 'panic detection by exit status 101/SIGABRT and stderr text'),
- 'C10': ('fault_enumeration', 'per scenario every state-changing libc call of every redo process in a recorded schedule is a crash point; all of them are enumerated with kill-process and kill-process-group, plus 32 timed group aborts per scenario spread over the recorded run (scripts running, redo waiting), each followed by recovery, edit and rebuild', 'process kills only (no power loss: synchronous=off promises nothing there); SQLite page atomicity under kill is trusted; the rename window of a first build is recorded as a known finding'),
- 'C11': ('exploration', 'seeded search over role-change histories (hand edits that change size and content, or one byte only right after the build; file times are simulated); trace invariant on every rename/unlink/open/truncate issued by redo processes plus inode+bytes comparison of user-owned files around every command', 'scripts in these scenarios never touch user files themselves'),
+ 'C10': ('fault_enumeration', 'per scenario every state-changing libc call of every redo process in a recorded schedule is a crash point; all of them are enumerated with kill-process and kill-process-group, plus 32 timed group aborts per scenario spread over the recorded run (scripts running, redo waiting), each followed by recovery, edit and rebuild (with and without log capture)', 'process kills only (no power loss: synchronous=off promises nothing there); SQLite page atomicity under kill is trusted; the rename window of a first build is recorded as a known finding'),
+ 'C11': ('exploration', 'seeded search over role-change histories (hand edits that change size and content, or one byte only right after the build; file times are simulated; a generated rule that the user edits, uses and removes); trace invariant on every rename/unlink/open/truncate issued by redo processes plus inode+bytes comparison of user-owned files around every command', 'scripts in these scenarios never touch user files themselves'),
  'C12': ('exploration', 'seeded search over cycle shapes (plain and checksummed nodes, prefixes, tangled graphs), entry points, -j and schedules; exact deadlock detection', 'cycle identified by status 208 or the error text; a cycle entered at two nodes in parallel is a known finding, recognised by who holds which lock'),
  'C13': ('exploration', 'seeded search over names, depths, candidate placements (also for a target outside the base directory, with rules two levels above it and decoys beside it) and add/remove histories; independent reference enumeration of candidates; script arguments taken from the running script', 'the candidate list as a pure function is compared on generated paths only (pure-function clause is outside simulation)'),
  'C14': ('exploration', 'seeded search over ifcreate/always/ifchange mixes and create/delete histories at -j1..4; SeenModel sets, exactly-once for always-targets', 'ifcreate idiom = ifchange when the path exists else ifcreate'),
  'C15': ('exploration', 'seeded search over spellings (relative, ./, .., //, absolute, via symlinked directory), working directories, duplicates on one command line, -j, targets that are themselves symlinks to directories; one database row, one build per real file', 'the second sentence of C15 (lexical cleaning exhaustively over byte strings) is a pure function and is not claimed by this technique'),
- 'C16': ('exploration', 'seeded search over 2-6 simultaneous commands including first-ever ones; every SQLite lock/write call is a scheduling point, busy handler runs on simulated time', "stall/starvation windows are bounded far below SQLite's 60 s busy timeout"),
- 'C17': ('exploration', 'seeded search over histories with queries inserted; SeenModel lower/upper bounds for redo-ood (a hand-edited target is never out of date), partition check for redo-targets/redo-sources, paired replay without the queries (stable per-command seeds)', 'outcomes (scripts run, status, files, structural DB) are compared, not raw traces'),
- 'C18': ('exploration', 'seeded search over interleavings of stderr writers (whole, partial, multi-piece, long lines; targets rebuilt within a session, targets spread over a sub-directory and asked for through ../ names) with the redo-log follower (reads, sleeps, lock probes are scheduling points); per-target line sequences in the live raw output and in a later redo-log replay', 'the record format/parse round trip for arbitrary field values is a pure function and is not claimed by this technique'),
+ 'C16': ('exploration', 'seeded search over 2-6 simultaneous commands including first-ever ones and commands with REDO preset in their environment; every SQLite lock/write call is a scheduling point, busy handler runs on simulated time', "stall/starvation windows are bounded far below SQLite's 60 s busy timeout"),
+ 'C17': ('exploration', 'seeded search over histories with queries inserted; SeenModel lower/upper bounds for redo-ood (a hand-edited target is never out of date; what the recovery after a killed build rebuilds was listed), partition and cover check for redo-targets/redo-sources, paired replay without the queries (stable per-command seeds)', 'outcomes (scripts run, status, files, structural DB) are compared, not raw traces'),
+ 'C18': ('exploration', 'seeded search over interleavings of stderr writers (whole, partial, multi-piece, long lines; targets rebuilt within a session, targets spread over a sub-directory and asked for through ../ names, a script terminated by a signal) with the redo-log follower (reads, sleeps, lock probes are scheduling points); per-target line sequences in the live raw output and in a later redo-log replay', 'the record format/parse round trip for arbitrary field values is a pure function and is not claimed by this technique'),
 }
 TODO_REASON = 'check not built yet in this round (planned, see DESIGN.md section 6); not claimed until it runs clean'
 
@@ -41,11 +41,11 @@ m = {
   "name": "psim",
   "path": "psim/",
   "serves_properties": sorted(CLAIMED),
-  "kind_free_text": "deterministic process-level simulator: the real redo process tree runs under an LD_PRELOAD libc shim; a seeded single-threaded scheduler releases one parked process at a time, owns clocks/timers/file times/randomness, injects kills of a process or a process group (before a chosen call, or at a chosen step), stalls (drawn, or placed at a chosen wake-up) and EINTR, and records a replayable decision list",
+  "kind_free_text": "deterministic process-level simulator: the real redo process tree runs under an LD_PRELOAD libc shim; a seeded single-threaded scheduler releases one parked process at a time, owns clocks/timers/file times/randomness, injects kills of a process or a process group (before a chosen call, or at a chosen step), stalls (drawn, or placed at a chosen wake-up), vanishing output readers and EINTR, and records a replayable decision list",
  }],
  "checks": [],
  "not_applicable": [],
- "notes": "Every check: ./check <ID> --tier quick|thorough; exit 0 held, 1 VIOLATION (replay file), 2 harness error. VERIF_SEED honoured. Repaired defects (fixed: lines) and known findings (JSON lines) are in known_findings.txt; genuine defects of /repo were repaired in 26 unguarded `fix:` commits; no hook commits exist (hooks.source_commits is empty).",
+ "notes": "Every check: ./check <ID> --tier quick|thorough; exit 0 held, 1 VIOLATION (replay file), 2 harness error. VERIF_SEED honoured. Repaired defects (fixed: lines) and known findings (JSON lines) are in known_findings.txt; genuine defects of /repo were repaired in 27 unguarded `fix:` commits; no hook commits exist (hooks.source_commits is empty).",
 }
 for p in props:
     i = p['id']
